@@ -27,7 +27,7 @@ EXPLANATION = (
     "sets of the unknown/cancelled arms are empty; subclasses of Int32StringReceiver bound MAX_LENGTH and always "
     "drop the connection in lengthLimitExceeded."
 )
-SHARED = [('C10', ['R1'], 'requests kept across a reconnect stay in the ordered table that close() drains and fails'), ('C10', ['R5', 'R6'], 'a request accepted by the broker client is eventually written or failed (connector hygiene, closed gate)')]
+SHARED = [('C10', ['R2'], 'a request taken out of the table while the queue is being flushed is not written: its id is free and may be reused'), ('C10', ['R1'], 'requests kept across a reconnect stay in the ordered table that close() drains and fails'), ('C10', ['R5', 'R6'], 'a request accepted by the broker client is eventually written or failed (connector hygiene, closed gate)')]
 ASSUMPTIONS = ["Twisted Int32StringReceiver reassembles frames and calls lengthLimitExceeded for oversized prefixes",
                "struct.calcsize gives the wire size of big-endian standard formats"]
 BC = "brokerclient:_KafkaBrokerClient"
@@ -192,13 +192,21 @@ def run(ctx):
             where(cr, cr.node), "late reply logged as unexpected / unsent cancelled request is written after reconnect")
 
     # ---- R6 framing
-    r = ctx.rule("R6", "protocol classes bound MAX_LENGTH and always drop the connection on an oversized frame", 3, "A")
+    r = ctx.rule("R6", "protocol classes bound MAX_LENGTH and always drop the connection on an oversized frame", 5, "A")
     pm = prog.module("_protocol")
     protos = [c for c in pm.classes.values() if any("Int32StringReceiver" in b for x in prog.mro(c) for b in x.base_names)]
     need(len(protos) >= 2, "protocol classes not found")
     FRAMING = {"dataReceived", "sendString", "makeConnection", "pauseProducing", "resumeProducing", "stopProducing"}
     for c in sorted(protos, key=lambda c: c.name):
         over = sorted(FRAMING & set(c.methods))
+        # ... nor reach into its reassembly buffer (what Twisted leaves there after an oversized prefix is what keeps the
+        # dying connection from being parsed any further)
+        pokes = sorted({"%s line %d" % (a_, getattr(x, "lineno", 0)) for m_ in c.methods.values() for x in ast.walk(m_.node)
+                        if isinstance(x, ast.Attribute) and isinstance(x.ctx, (ast.Store, ast.Del)) and isinstance(x.value, ast.Name) and x.value.id == "self"
+                        for a_ in [x.attr] if a_ in ("_unprocessed", "recvd", "_compatibilityOffset", "_unprocessed_offset")})
+        r.check(not pokes, "_protocol:%s#receive-buffer-untouched" % c.name, "the protocol class writes the receiver's reassembly buffer: %s" % pokes,
+                "afkak/_protocol.py:%d" % c.node.lineno, "after a frame announcing an impossible length the buffered prefix is thrown away: the bytes "
+                "that follow are parsed from an arbitrary offset and can complete a pending request with garbage")
         r.check(not over, "_protocol:%s#framing-not-overridden" % c.name, "the protocol class overrides %s of the length-prefixed receiver" % over,
                 "afkak/_protocol.py:%d" % c.node.lineno, "bytes of a reply to a live request are dropped or re-framed: that request is neither "
                 "resolved nor is its timer released; it is re-sent although it was answered")
